@@ -167,7 +167,10 @@ CLAIMED = {
         "against the run machine spec/RunTrace.tla = Run.tla + Eval.tla (a recursive TLA+ evaluator of the match language) + "
         "Scan.tla + Assign.tla + Values.tla, so a trace is accepted iff the implementation returned exactly the lines the "
         "specification's evaluation of the components says, at every line. Rejections are re-validated under the named "
-        "deviations of the listed known findings (lt answers <=; cells compared as text).",
+        "deviations of the listed known findings (lt answers <=; cells compared as text). MC_Run's closed pool of (program, file, mode) cases is "
+        "explored exhaustively by TLC and every terminal state replayed into the real CsvPath. Thorough tier: the runs the repository's own "
+        "tests make (hand-written csvpaths, recorded by a pytest plugin loaded from outside, program read off the parse tree) are validated "
+        "the same way; the runs listed in repo_traces/ACCEPTED.json must stay accepted.",
         note="Trusted: TLC, the projection (lib/runner.snapshot), python csv round trip. Generated programs stay inside the "
         "modelled function set and are built so that no argument-validation error arises (C05 covers errors). "
         "At most one onmatch look-ahead per csvpath; a 'last() ->' component comes last (the property's quantifier).",
@@ -186,7 +189,7 @@ CLAIMED = {
     "C04": dict(
         text="Trace validation of generated csvpaths with conditional fail()/fail_and_stop()/failed()/valid(): the is_valid bit "
         "logged after every line must equal the specification's; ValidityMonotone is checked by TLC as an action property on "
-        "every validated trace; MC_Run's closed pool (all behaviours, terminal states replayed into the real CsvPath) is judged on the "
+        "every validated trace (thorough: also the runs of the repository's own tests, recorded by a pytest plugin from outside); MC_Run's closed pool (all behaviours, terminal states replayed into the real CsvPath) is judged on the "
         "verdict. Aggregation: named-paths groups with failing members under all six run methods are validated by ArchiveTrace (member "
         "manifests' valid, the run manifest's all_valid and ResultsManager.is_valid(name) are the conjunction of the members' verdicts). "
         "fail_all(): groups whose members raise the cross-path signals are validated by the joint machine spec/GroupRun.tla (concrete members, "
